@@ -130,11 +130,19 @@ Theorem C07_fixed_F07c :
 Proof. exact fixed_F07c. Qed.
 Print Assumptions C07_fixed_F07c.
 
-Theorem C07_refuted_F07d :
-  guard_F07d key_F07d ident_F07d ops_F07d = false
-  /\ props idf key_F07d key_F07d idf no_score ident_F07d ops_F07d = None.
-Proof. exact refuted_F07d. Qed.
-Print Assumptions C07_refuted_F07d.
+Theorem C07_fixed_F07d :
+  guard_F07d attr_F07d ident_F07d ops_F07d = true
+  /\ props idf key_F07d attr_F07d class_F07d no_score ident_F07d ops_F07d
+     = Some [(s_unnamed, s_UnnamedClass ++ s_Client); (s_default, s_default ++ s_Client)].
+Proof. exact fixed_F07d. Qed.
+Print Assumptions C07_fixed_F07d.
+
+Theorem C07_refuted_F07e_unnamed :
+  guard_F07e key_F07d attr_F07d class_F07d ops_F07e2 = false
+  /\ length (group key_F07d (emitted_ops idf ops_F07e2)) = 2%nat
+  /\ length (files idf key_F07d attr_F07d class_F07d no_score ops_F07e2) = 1%nat.
+Proof. exact refuted_F07e_unnamed. Qed.
+Print Assumptions C07_refuted_F07e_unnamed.
 
 Theorem C07_refuted_F07e :
   guard_F07e idf attr_F07e class_F07e ops_F07e = false
